@@ -6,6 +6,7 @@ import (
 
 	"github.com/hydraide/hydraide/app/core/hydra/swamp/treasure"
 	"github.com/hydraide/hydraide/app/core/hydra/swamp/treasure/msgpackpatch"
+	"github.com/hydraide/hydraide/app/verifhook"
 )
 
 // PatchExpired atomically selects up to howMany expired treasures from
@@ -57,6 +58,7 @@ func (s *swamp) PatchExpired(howMany int32, ops []msgpackpatch.Op, condition *ms
 	s.buildBeacon(s.expirationTimeBeaconASC, s.expirationTimeBeaconDESC, BeaconTypeExpirationTime)
 
 	selected, capReached := s.expirationTimeBeaconASC.SelectExpiredForPatchWithCap(int(howMany), selectionPredicate, capPredicate, int(capMax))
+	verifhook.Point("swamp.patchExpired.selected", int64(len(selected)))
 	if len(selected) == 0 {
 		return nil, capReached, nil
 	}
@@ -79,6 +81,7 @@ func (s *swamp) PatchExpired(howMany int32, ops []msgpackpatch.Op, condition *ms
 	// before re-adding, so it is safe to call regardless of whether
 	// SaveFunction's IsExpirationTimeChanged branch already re-added
 	// any of them.
+	verifhook.Point("swamp.patchExpired.beforeReindex")
 	s.expirationTimeBeaconASC.ReindexExpiration(selected)
 	// Re-add to DESC by appending each + re-sort. addToExpirationTimeBeacon
 	// handles both ASC and DESC, but we already did ASC via ReindexExpiration
